@@ -45,6 +45,81 @@ static inline int xc_isalnum(int c) { return xc_isalpha(c) || xc_isdigit(c); }
 static inline int xc_toupper(int c) { return xc_islower(c) ? c - 'a' + 'A' : c; }
 static inline int xc_tolower(int c) { return xc_isupper(c) ? c - 'A' + 'a' : c; }
 
+/* strlen without a loop (every loop under --apply-loop-contracts needs a contract): exact for strings shorter
+ * than 64 bytes, an obligation (assertion) otherwise */
+static inline size_t xc_strlen(const char *s)
+{
+  if (!s[0]) return 0;
+  if (!s[1]) return 1;
+  if (!s[2]) return 2;
+  if (!s[3]) return 3;
+  if (!s[4]) return 4;
+  if (!s[5]) return 5;
+  if (!s[6]) return 6;
+  if (!s[7]) return 7;
+  if (!s[8]) return 8;
+  if (!s[9]) return 9;
+  if (!s[10]) return 10;
+  if (!s[11]) return 11;
+  if (!s[12]) return 12;
+  if (!s[13]) return 13;
+  if (!s[14]) return 14;
+  if (!s[15]) return 15;
+  if (!s[16]) return 16;
+  if (!s[17]) return 17;
+  if (!s[18]) return 18;
+  if (!s[19]) return 19;
+  if (!s[20]) return 20;
+  if (!s[21]) return 21;
+  if (!s[22]) return 22;
+  if (!s[23]) return 23;
+  if (!s[24]) return 24;
+  if (!s[25]) return 25;
+  if (!s[26]) return 26;
+  if (!s[27]) return 27;
+  if (!s[28]) return 28;
+  if (!s[29]) return 29;
+  if (!s[30]) return 30;
+  if (!s[31]) return 31;
+  if (!s[32]) return 32;
+  if (!s[33]) return 33;
+  if (!s[34]) return 34;
+  if (!s[35]) return 35;
+  if (!s[36]) return 36;
+  if (!s[37]) return 37;
+  if (!s[38]) return 38;
+  if (!s[39]) return 39;
+  if (!s[40]) return 40;
+  if (!s[41]) return 41;
+  if (!s[42]) return 42;
+  if (!s[43]) return 43;
+  if (!s[44]) return 44;
+  if (!s[45]) return 45;
+  if (!s[46]) return 46;
+  if (!s[47]) return 47;
+  if (!s[48]) return 48;
+  if (!s[49]) return 49;
+  if (!s[50]) return 50;
+  if (!s[51]) return 51;
+  if (!s[52]) return 52;
+  if (!s[53]) return 53;
+  if (!s[54]) return 54;
+  if (!s[55]) return 55;
+  if (!s[56]) return 56;
+  if (!s[57]) return 57;
+  if (!s[58]) return 58;
+  if (!s[59]) return 59;
+  if (!s[60]) return 60;
+  if (!s[61]) return 61;
+  if (!s[62]) return 62;
+  if (!s[63]) return 63;
+  __CPROVER_assert(0, "xc_strlen: string longer than the 63 bytes the shim handles");
+  return 64;
+}
+
+/* std::string as seen by slices that only read it: pointer + length (owning semantics not modelled) */
+typedef struct xc_str { const char *data; size_t len; } xc_str;
+
 #define XC_DEF_MINMAX(T, S)                                              \
   static inline T xc_min_##S(T a, T b) { return b < a ? b : a; }         \
   static inline T xc_max_##S(T a, T b) { return a < b ? b : a; }
